@@ -16,6 +16,7 @@ type Env struct {
 	old  *State   // state used for old(...)
 	spec bool     // evaluating a spec-file expression (no Go values)
 	defs map[string]Expr // contract-level definitions (macros)
+	pkg  string          // package of the contract (for package-level macros)
 	freshBase *Term // allocation counter at the start of the call whose contract is evaluated
 }
 
@@ -25,6 +26,7 @@ func (ex *Exec) contractEnv(st *State, lc *loopCtx) *Env {
 	env := &Env{vars: map[string]Value{}, lc: lc, old: st.entry}
 	if ex.cur != nil && ex.cur.contract != nil {
 		env.defs = ex.cur.contract.Defines
+		env.pkg = ex.cur.contract.Pkg
 	}
 	for k, v := range st.paramVals {
 		env.vars[k] = v
@@ -128,7 +130,7 @@ func (ex *Exec) evalIn(st *State, e Expr, env *Env, cl *Clause) Value {
 		}
 		// evaluate in the entry state but keep assumptions flowing into st
 		tmp := *env.old
-		tmp.pc, tmp.pcSeen = st.pc, st.pcSeen
+		tmp.pc, tmp.seen = st.pc, st.seen
 		v := ex.evalIn(&tmp, x.X, env, cl)
 		st.pc = tmp.pc
 		return v
@@ -159,7 +161,7 @@ func (ex *Exec) evalIn(st *State, e Expr, env *Env, cl *Clause) Value {
 		}
 		return Ite(c, at, bt)
 	case *EQuant:
-		inner := &Env{vars: map[string]Value{}, fr: env.fr, lc: env.lc, old: env.old, spec: env.spec, freshBase: env.freshBase, defs: env.defs}
+		inner := &Env{vars: map[string]Value{}, fr: env.fr, lc: env.lc, old: env.old, spec: env.spec, freshBase: env.freshBase, defs: env.defs, pkg: env.pkg}
 		for k, v := range env.vars {
 			inner.vars[k] = v
 		}
@@ -186,14 +188,11 @@ func (ex *Exec) evalIn(st *State, e Expr, env *Env, cl *Clause) Value {
 			inner.vars[b.Name] = v
 		}
 		// assumptions generated while evaluating under the binder must not leak bound variables
-		savedPC, savedSeen := st.pc, st.pcSeen
-		st.pcSeen = map[string]bool{}
-		for k, v := range savedSeen {
-			st.pcSeen[k] = v
-		}
+		savedPC, savedSeen := st.pc, st.seen
+		st.seen = newSeen(savedSeen)
 		body := ex.evalBool(st, x.Body, inner, cl)
 		newFacts := st.pc[len(savedPC):]
-		st.pc, st.pcSeen = savedPC, savedSeen
+		st.pc, st.seen = savedPC, savedSeen
 		var local []*Term
 		for _, f := range newFacts {
 			if mentionsAny(f, bound) {
@@ -232,6 +231,9 @@ func (ex *Exec) evalIn(st *State, e Expr, env *Env, cl *Clause) Value {
 	case *EField:
 		// qualified constant or spec constant?
 		if qn, ok := QualifiedName(x); ok {
+			if g, isGhost := st.ghost[qn]; isGhost {
+				return g
+			}
 			if _, isVar := env.vars[strings.SplitN(qn, ".", 2)[0]]; !isVar {
 				if s, ok := ex.Spec.Consts[qn]; ok {
 					return Var(qn, s)
@@ -354,7 +356,7 @@ func (ex *Exec) specLoad(st *State, p *VPtr) Value {
 		return ex.loadPath(st.mem[p.Obj], p.Path)
 	}
 	if p.ElemRef != nil && p.ElemIdx != nil {
-		return ex.heapLoad(st, p.ElemT, p.ElemRef, p.ElemIdx)
+		return ex.loadPath(ex.heapLoad(st, p.ElemT, p.ElemRef, p.ElemIdx), p.Path)
 	}
 	return ex.zeroValue(p.T)
 }
@@ -659,6 +661,27 @@ func (ex *Exec) evalCall(st *State, c *ECall, env *Env, cl *Clause) Value {
 		b := ex.evalTerm(st, c.Args[2], env, cl)
 		return Ite(cnd, a, b)
 	}
+	if mc, ok := Macros[env.pkg][name]; ok {
+		if len(mc.Params) != len(c.Args) {
+			ex.evalFail(cl, "macro %s expects %d arguments", name, len(mc.Params))
+		}
+		inner := &Env{vars: map[string]Value{}, fr: env.fr, lc: env.lc, old: env.old, spec: env.spec, freshBase: env.freshBase, defs: env.defs, pkg: env.pkg}
+		for k, v := range env.vars {
+			inner.vars[k] = v
+		}
+		for i, p := range mc.Params {
+			inner.vars[p] = ex.evalIn(st, c.Args[i], env, cl)
+		}
+		return ex.evalIn(st, mc.Body, inner, cl)
+	}
+	// application of a function value (closure) with a pure contract
+	if fv, ok := env.vars[name].(*VFunc); ok {
+		var args []Value
+		for _, a := range c.Args {
+			args = append(args, ex.evalIn(st, a, env, cl))
+		}
+		return ex.evalClosureApp(st, fv, args, cl)
+	}
 	if sf, ok := ex.Spec.Funcs[name]; ok {
 		if len(sf.Params) != len(c.Args) {
 			ex.evalFail(cl, "spec function %s expects %d arguments", name, len(sf.Params))
@@ -811,8 +834,74 @@ func (ex *Exec) addAxiom(label string, t *Term, lemma bool, trig []string) {
 }
 
 func (ex *Exec) newState() *State {
-	var nb int64 = 1000
-	return &State{pcSeen: map[string]bool{}, mem: map[*Object]Value{}, heaps: map[string]*Term{},
-		decided: map[string]bool{}, ifaceRes: map[*VIface]int{}, ghost: map[string]Value{},
+	var nb int64 = 1000000
+	st := &State{seen: newSeen(nil), mem: map[*Object]Value{}, heaps: map[string]*Term{},
+		decided: map[Key]bool{}, ifaceRes: map[*VIface]int{}, ghost: map[string]Value{},
 		boxes: map[int64]Value{}, nbox: &nb, alloc: Var("alloc@0", SInt), alloc0: Var("alloc@0", SInt)}
+	// memory allocated by the package initialisers occupies the concrete refs 1..initAlloc
+	for k, v := range ex.initHeaps {
+		st.heaps[k] = v
+	}
+	for k, v := range ex.initBoxes {
+		st.boxes[k] = v
+	}
+	st.assume(Gt(st.alloc0, IntLit(1000000)))
+	for _, f := range ex.initFacts {
+		st.assume(f)
+	}
+	return st
+}
+
+// evalClosureApp: the value of applying a closure inside a contract. The closure must have a
+// contract with a clause  ensures <label>: result <==> E  (a pure predicate); the application
+// evaluates E with the closure's parameters and captured variables bound.
+func (ex *Exec) evalClosureApp(st *State, fv *VFunc, args []Value, cl *Clause) Value {
+	if fv.Fn == nil {
+		// symbolic function value: uninterpreted predicate over scalar arguments
+		var ts []*Term
+		for _, a := range args {
+			switch x := a.(type) {
+			case *Term:
+				ts = append(ts, x)
+			case *VSlice:
+				ts = append(ts, x.Ref, x.Off, x.Len)
+			default:
+				ex.evalFail(cl, "application of symbolic function %s to %T", fv.Sym, a)
+			}
+		}
+		return App("fn."+fv.Sym, SBool, ts...)
+	}
+	key := ex.FuncKey(fv.Fn)
+	ct, ok := ex.Contracts[key]
+	if !ok {
+		ex.evalFail(cl, "closure %s applied in a contract has no contract", key)
+	}
+	names := ex.paramNames(fv.Fn, ct)
+	env := &Env{vars: map[string]Value{}, defs: ct.Defines, pkg: ct.Pkg}
+	for i, n := range names {
+		if i < len(args) {
+			env.vars[n] = args[i]
+		}
+	}
+	for i, v := range fv.Fn.FreeVars {
+		if i < len(fv.Env) {
+			// captured variables are cells: the contract talks about their current content
+			if p, ok := fv.Env[i].(*VPtr); ok && p.Obj != nil {
+				env.vars[v.Name()] = ex.specLoad(st, p)
+			} else {
+				env.vars[v.Name()] = fv.Env[i]
+			}
+		}
+	}
+	resNames := ex.resultNames(fv.Fn, ct)
+	for _, en := range ct.Ensures {
+		if b, ok := en.E.(*EBin); ok && b.Op == "<==>" {
+			if id, ok := b.L.(*EIdent); ok && len(resNames) == 1 && id.Name == resNames[0] {
+				ex.cur.contractsUsed[key] = true
+				return ex.evalIn(st, b.R, env, en)
+			}
+		}
+	}
+	ex.evalFail(cl, "closure %s has no clause of the form  result <==> E", key)
+	return nil
 }
